@@ -1,0 +1,28 @@
+//go:build verif
+
+// Contracts for the deductive verifier in /verif (govc). This file contains only comments:
+// with or without the build tag it adds no code to the package.
+package gojq
+
+// ---------------------------------------------------------------------------------------
+// C10: exact integer arithmetic
+// ---------------------------------------------------------------------------------------
+
+//@ pred exact(v any) = (v is int) || ((v is *big.Int) && v.(*big.Int) != nil)
+//@ spec func numval(v any) int = (v is int) ? v.(int) : bigval(v.(*big.Int))
+
+//@ func negate(v int) (r any)
+//@   property C10
+//@   ensures exact(r) && numval(r) == -v
+
+//@ func funcOpAdd$1(l, r int) (x any)
+//@   property C10
+//@   ensures exact(x) && numval(x) == l + r
+
+//@ func funcOpSub$1(l, r int) (x any)
+//@   property C10
+//@   ensures exact(x) && numval(x) == l - r
+
+//@ func funcOpMul$1(l, r int) (x any)
+//@   property C10
+//@   ensures exact(x) && numval(x) == l * r
